@@ -13,6 +13,7 @@ translate/c01_opcodes.py on every run).
 If an op code is removed or renamed in /repo, or its arm is deleted, the regenerated table makes `decide` fail.
 -/
 import SteelVerif.C01.BCParse
+import SteelVerif.C01.BCExt
 import SteelVerif.C01.GenOpcodes
 namespace SteelVerif.C01BC
 open SteelVerif.C01C SteelVerif.C01Gen
@@ -39,6 +40,15 @@ theorem reader_only_modelled (rm : Remap) (p2 p : String) (l : Line) (i : Instr)
     (h : toInstr rm p2 p l = .ok i) : l.op ∈ modelledOpNames := by
   unfold toInstr at h
   split at h <;> simp_all [modelledOpNames]
+
+/-- The op codes the extended VM (`BCExt.xStep`) accepts beyond the core are real op codes; the two that are dispatched
+on (`CALLGLOBALNOARITY`, `CALLGLOBALTAILNOARITY`) have an arm in the real loop; `FUNCNOARITY` / `TAILCALLNOARITY` are the
+operand-count words that follow them (the real loop has no arm for them either). -/
+theorem extended_opcodes_exist : xOps.all (fun n => realOpcodes.contains n) = true := by decide
+
+theorem extended_call_opcodes_dispatched :
+    ["CALLGLOBALNOARITY", "CALLGLOBALTAILNOARITY"].all (fun n => dispatchArms.contains n) = true ∧
+    ["FUNCNOARITY", "TAILCALLNOARITY"].all (fun n => !dispatchArms.contains n) = true := by decide
 
 -- non-vacuity: the tables are not empty and the reader does accept real lines
 example : realOpcodes.length ≥ 100 ∧ dispatchArms.length ≥ 80 := by decide
